@@ -176,6 +176,26 @@ def probes() -> list[Item]:
     out.append(Item(Prog(accounts={TARGET: code}, calldata=[Sym("cd0", 256), Sym("cd1", 256)], name="hash-const-minus-one",
                          meta={"bounded_inputs": {"cd0": 2**64, "cd1": 2**64}}),
                     [{"cd0": 1, "cd1": 0}, {"cd0": 5, "cd1": 4}, {"cd0": 5, "cd1": 5}, {"cd0": 0, "cd1": 0}], key="probe:hash-const-minus-one"))
+    # mapping(uint => S[]) m at slot 0 with a three-slot struct S: m[k][i].f1 lives at keccak(keccak(k . 0)) + 3*i + 1 - a sum of
+    # a hash of symbolic data, a symbolic element offset and a constant field offset, in the orders a compiler may emit
+    def elem(i_code, order):
+        h = [("PUSH", 0), "CALLDATALOAD", ("PUSH", 0x200), "MSTORE", ("PUSH", 0), ("PUSH", 0x220), "MSTORE", ("PUSH", 64), ("PUSH", 0x200), "SHA3",
+             ("PUSH", 0x240), "MSTORE", ("PUSH", 32), ("PUSH", 0x240), "SHA3"]
+        i3 = i_code + [("PUSH", 3), "MUL"]
+        if order == 0:
+            return h + i3 + ["ADD", ("PUSH", 1), "ADD"]       # (hash + 3i) + 1
+        if order == 1:
+            return i3 + [("PUSH", 1), "ADD"] + h + ["ADD"]     # hash + (3i + 1)
+        return [("PUSH", 1)] + h + ["ADD"] + i3 + ["ADD"]      # 3i + (hash + 1)
+
+    I1, I2 = [("PUSH", 32), "CALLDATALOAD"], [("PUSH", 64), "CALLDATALOAD"]
+    for order in (0, 1, 2):
+        body = [("PUSH", 0xAA)] + elem(I1, order) + ["SSTORE", ("PUSH", 0xBB)] + elem(I2, (order + 1) % 3) + ["SSTORE"] + elem(I1, (order + 2) % 3) + ["SLOAD"]
+        code = assemble(body + [("PUSH", 0), "MSTORE", ("PUSH", 32), ("PUSH", 0), "RETURN"])
+        out.append(Item(Prog(accounts={TARGET: code}, calldata=[Sym("cd0", 256), Sym("cd1", 256), Sym("cd2", 256)], name=f"struct-array-in-mapping-{order}",
+                             meta={"bounded_inputs": {"cd1": 2**64, "cd2": 2**64}}),
+                        [{"cd0": 7, "cd1": 0, "cd2": 1}, {"cd0": 7, "cd1": 1, "cd2": 1}, {"cd0": 0, "cd1": 2, "cd2": 0}, {"cd0": 1 << 255, "cd1": 5, "cd2": 5}, {"cd0": 3, "cd1": 3, "cd2": 4}],
+                        key=f"probe:struct-array-in-mapping-{order}"))
     # an account with symbolic storage: the transient element m[k] (mapping at slot 1 of symstore.LAYOUT) reads zero, the
     # persistent element of the same slot reads its unconstrained initial value - in either order, and around a store
     def m_at(key_code):
